@@ -24,7 +24,10 @@ def gen(rng):
             "before": chain(rng.randint(0, 2)), "after": chain(rng.randint(0, 3)),
             "callable": rng.choice(["function", "partial", "object", "future", "object_attrs", "bound"]),
             "args": [rng.randrange(10) for _ in range(rng.randint(0, 2))],
-            "script": [rng.choice(["ok", "ok", "err"]) for _ in range(3)] + ["ok"], "flat": rng.random() < 0.3}
+            "script": [rng.choice(["ok", "ok", "err"]) for _ in range(3)] + ["ok"], "flat": rng.random() < 0.3,
+            # the FIRST calls of the bound callable / the first submits come from two threads at once (fault-free script then,
+            # so that the two outcomes do not depend on which attempt of which call consumes which script entry)
+            "calls": rng.choice([1, 1, 1, 2, 2])}
 
 
 def apply_layer(x, layer, log, tag):
@@ -67,6 +70,7 @@ def execute(p, chooser):
     from more_executors import Executors
     from more_executors.futures import f_return
     obs = {"params": p, "res": {}, "names": {}}
+    ncalls = p.get("calls", 1)
 
     def build(tag, log):
         kw = {} if p["base_name"] is None else {"name": p["base_name"]}
@@ -84,7 +88,7 @@ def execute(p, chooser):
             k = st["k"]
             st["k"] += 1
             log.append((tag, "fn", a, k))
-            if p["script"][min(k, 3)] == "err":
+            if ncalls == 1 and p["script"][min(k, 3)] == "err":
                 raise KeyError("attempt%d" % k)
             return f_return(("r", a)) if p["callable"] == "future" else ("r", a)
         if p["callable"] == "partial":
@@ -134,7 +138,7 @@ def execute(p, chooser):
                     b = ex.flat_bind(fn) if flat else ex.bind(fn)
                     for l in p["after"]:
                         b = apply_layer(b, l, log, tag)
-                f = b(*p["args"])
+                call = lambda: b(*p["args"])
                 top = None
             else:
                 with det.atomic():
@@ -143,8 +147,15 @@ def execute(p, chooser):
                         top = top.with_flat_map(lambda x: x)
                     for l in p["after"]:
                         top = apply_layer(top, l, log, tag)
-                f = top.submit(fn, *p["args"])
-            obs["res"][tag] = (outcome(f), [e[1:] for e in log])
+                call = lambda: top.submit(fn, *p["args"])
+            if ncalls == 1:
+                obs["res"][tag] = (outcome(call()), [e[1:] for e in log])
+            else:
+                outs = []
+                ts = [det.spawn("%s%d" % (tag[0], k), lambda: outs.append(outcome(call()))) for k in range(ncalls)]
+                for t in ts:
+                    t.join()
+                obs["res"][tag] = (sorted(outs, key=repr), sorted((e[1:] for e in log), key=repr))
             obs["names"][tag] = sorted(t.name for t in det.S.threads.values()
                                        if t.tid not in before and any(t.name.startswith(x) for x in THREAD_PREFIX.values()))
 
